@@ -880,6 +880,15 @@ func (c *Ctx) normalizeHelpers(all map[*ssa.Function]bool) map[*ssa.Function]boo
 			kill(g)
 		}
 	}
+	// in rewritten functions, an interface method call whose receiver was
+	// made from a concrete value right there (a parameter of interface type
+	// replaced by its argument) is the call of that type's method
+	for _, f := range il.touched {
+		il.devirtualize(f)
+		for _, af := range f.AnonFuncs {
+			il.devirtualize(af)
+		}
+	}
 	// a rewritten function that is not well-formed SSA is an internal failure
 	changed := map[*ssa.Function]bool{}
 	for _, l := range il.touched {
@@ -1080,4 +1089,43 @@ func sigKey(f *ssa.Function) string {
 		sig += "..."
 	}
 	return pkgOf(f) + "|" + recv + "|" + sig
+}
+
+// devirtualize turns `MakeInterface(x).M(args)` into the static call of the
+// concrete method.
+func (il *inliner) devirtualize(f *ssa.Function) {
+	did := false
+	for _, b := range f.Blocks {
+		for _, in := range b.Instrs {
+			ci, ok := in.(ssa.CallInstruction)
+			if !ok {
+				continue
+			}
+			cc := ci.Common()
+			if !cc.IsInvoke() {
+				continue
+			}
+			mi, ok := cc.Value.(*ssa.MakeInterface)
+			if !ok {
+				continue
+			}
+			ms := f.Prog.MethodSets.MethodSet(mi.X.Type())
+			sel := ms.Lookup(cc.Method.Pkg(), cc.Method.Name())
+			if sel == nil {
+				continue
+			}
+			m := f.Prog.MethodValue(sel)
+			if m == nil || m.Synthetic != "" || len(m.Blocks) == 0 {
+				continue
+			}
+			cc.Args = append([]ssa.Value{mi.X}, cc.Args...)
+			cc.Value = m
+			cc.Method = nil
+			did = true
+			il.Log = append(il.Log, fmt.Sprintf("devirtualized %s in %s", m, f))
+		}
+	}
+	if did {
+		finishFunc(f)
+	}
 }
